@@ -1,6 +1,7 @@
 import QipVerif.Lemmas.ConcatTop
 import QipVerif.Lemmas.ConcatCont
 import QipVerif.Lemmas.ConcatPoints
+import QipVerif.Lemmas.ConcatCompile
 /-!
 # C12 — compiled control pulses are exactly the scheduled instruction waveforms
 
@@ -56,6 +57,56 @@ theorem idle_only_counterexample (byTol : Bool) (τ : Rat) :
   refine ⟨concatenate_nil byTol τ, concatenateZ_nil byTol τ, ?_, ?_⟩
   · simp [concatenate, mapMExcept, chanLoop]
   · simp [concatenateZ, mapMExcept, chanLoop, procs, minStep]
+
+/-- **`_schedule` without scheduler**: the instruction order is kept and every instruction starts when the previous one
+ends (`0, d₀, d₀+d₁, …`). -/
+theorem schedule_unscheduled (instrs : List Instr) :
+    schedule instrs none = .ok (instrs, cumStarts 0 instrs) ∧ (cumStarts 0 instrs).length = instrs.length ∧
+    ∀ k (h1 : k + 1 < (cumStarts 0 instrs).length) (h2 : k < instrs.length),
+      (cumStarts 0 instrs)[k + 1] = (cumStarts 0 instrs)[k]'(by omega) + instrs[k].duration :=
+  ⟨rfl, cumStarts_length 0 instrs, fun k h1 h2 => cumStarts_succ 0 instrs k h1 h2⟩
+
+/-- **`_schedule` with a scheduler** (`starts` = what the scheduler returned, `perm` = what `np.argsort` returned, any
+sorting permutation): the start times come out sorted and the (instruction, start time) pairs are a permutation of the
+scheduler's — no instruction is lost, duplicated or given another instruction's start time. -/
+theorem schedule_scheduled (instrs : List Instr) (starts : List Rat) (perm : List Nat) (is : List Instr) (st : List Rat)
+    (h : schedule instrs (some (starts, perm)) = .ok (is, st)) :
+    st.Pairwise (· ≤ ·) ∧ (is.zip st).Perm (instrs.zip starts) :=
+  schedule_sorted_perm instrs starts perm is st h
+
+/-- **`compile` end to end** (after the gate-by-gate compilation): schedule, group by pulse label, concatenate.  The
+channel labelled `l` is compiled from exactly the pulses labelled `l` (`chanOf`), in scheduled order, each with the start
+time of its instruction; labels are distinct and appear in order of first use; if every such channel meets `Chain` and
+`Sep`, `compile` succeeds and returns `_concatenate_pulses` of those channels (to which all theorems below apply). -/
+theorem compile_channels (byTol : Bool) (τ : Rat) (hτ : 0 < τ) (instrs : List Instr) (sch : Option (List Rat × List Nat))
+    (is : List Instr) (starts : List Rat) (groups : List (Nat × List (Rat × Wave)))
+    (hne : instrs ≠ []) (hs : schedule instrs sch = .ok (is, starts))
+    (hg : groupPulses (is.zip starts) [] = some groups) (hgn : groups ≠ [])
+    (hch : ∀ g ∈ groups, Chain 0 g.2 ∧ Sep byTol τ true 0 g.2) :
+    (groups.map (·.1)).Nodup ∧ (∀ g ∈ groups, g.2 = chanOf g.1 (is.zip starts)) ∧
+    ∃ outs, concatenate byTol τ (groups.map (·.2)) = .ok outs ∧
+      compile byTol τ instrs sch = some (.ok (some ((groups.map (·.1)).zip outs))) := by
+  obtain ⟨g1, g2, g3⟩ := groupPulses_spec (is.zip starts) [] groups hg
+  have hnd := g2 (by simp)
+  have hnonempty := g3 (by simp)
+  refine ⟨hnd, ?_, ?_⟩
+  · intro g hgm
+    rw [← chanLookup_of_mem hnd hgm, g1 g.1]; simp [chanLookup]
+  · obtain ⟨_, _, _, outs, _, _, hc, _⟩ := Concat.concatenate_channels byTol τ hτ (groups.map (·.2)) (by simpa using hgn)
+      (by
+        intro ch hc
+        obtain ⟨g, hgm, rfl⟩ := List.mem_map.mp hc
+        exact ⟨hnonempty g hgm, valid_of_chain_sep (hch g hgm).1 (hch g hgm).2⟩)
+    refine ⟨outs, hc, ?_⟩
+    have he : instrs.isEmpty = false := by cases instrs <;> simp_all
+    simp [compile, he, hs, hg, hc]
+
+-- non-vacuity: three rectangular pulses on two labels, unscheduled
+example :
+    (match compile false (1/1000000)
+        [⟨.scalar 1, [(0, .scalar (1/2))]⟩, ⟨.scalar 2, [(1, .scalar 1)]⟩, ⟨.scalar 1, [(0, .scalar (3/4))]⟩] none with
+      | some (.ok (some outs)) => outs
+      | _ => []) = [(0, [0, 1, 3, 4], [1/2, 0, 3/4]), (1, [0, 1, 3, 4], [0, 1, 0])] := by decide +kernel
 
 /-- **Grid.** Every compiled channel has a time grid that starts at 0 and increases strictly — for every
 padding mode, every final time at or after the channel's end and every positive `min_step_size`. -/
